@@ -41,11 +41,11 @@ LEVEL_NOTE = ('Trusted: canon.children/all_paths (plain recursion over dunder '
               'storage and builtin containers). Bounds: N<=3 (quick), N<=4 '
               'reduced menu (thorough).')
 
-CONST_TUPLE = (1, 2)
+CONST_TUPLE = ((1, 2), 3)
 MENUS = {
     'full': ['cfg', 'cfgpos', 'list0', 'list2', 'tuple0', 'tuple2', 'dict2',
-             'ddict1', 'nt', 'tmp', 'dict0'],
-    'mid': ['cfg', 'cfgpos', 'list2', 'tuple2', 'dict1', 'tmp'],
+             'ddict1', 'nt', 'tmp', 'dict0', 'tmpprim'],
+    'mid': ['cfg', 'list2', 'tuple2', 'dict1', 'tmp', 'tmpprim'],
     'small': ['cfg', 'list2', 'dict1', 'tuple1'],
 }
 NCHUNK = 32
@@ -66,7 +66,54 @@ class _Temp(list):
   """Marks a temporary in the independent enumeration."""
 
 
+class _TempLeaf:
+  """A primitive temporary (fresh on every flatten)."""
+
+  def __init__(self, value):
+    self.value = value
+
+
+PRIMS = (bool, int, float, complex, str, bytes, type(None), type(Ellipsis),
+         type(NotImplemented))
+
+
+def my_internable(v):
+  import enum  # pylint: disable=g-import-not-at-top
+  if type(v) is _TempLeaf:
+    return True
+  if isinstance(v, PRIMS) or isinstance(v, enum.Enum):
+    return True
+  return type(v) is tuple and all(my_internable(e) for e in v)
+
+
+def expected_memoized_paths(root):
+  """Paths a memoized traversal with memoize_internables=False must report:
+  DFS, non-internable objects once (first path), internables every time."""
+  out = []
+  memo = set()
+  pins = []
+
+  def walk(v, path):
+    if not my_internable(v):
+      if id(v) in memo:
+        return
+      memo.add(id(v))
+      pins.append(v)     # keep alive: ids of temporaries must not recur
+    out.append(path)
+    ch = children(v)
+    if ch:
+      for pe, c in ch:
+        walk(c, path + (pe,))
+
+  walk(root, ())
+  return out
+
+
 def children(x):
+  if type(x) is N.TmpPrim:
+    return [(('attr', 'bang'), _TempLeaf(x.bang))]
+  if type(x) is _TempLeaf:
+    return None
   if type(x) is N.Tmp:
     return [(('attr', 'wa'), _Temp([x.a])), (('attr', 'wb'), _Temp([x.b]))]
   if type(x) is _Temp:
@@ -110,6 +157,12 @@ def spec(path):
 
 
 def same(a, b):
+  if type(a) is _TempLeaf:
+    a = a.value
+  if type(b) is _TempLeaf:
+    b = b.value
+  if isinstance(a, str) and isinstance(b, str):
+    return a == b
   if type(a) is _Temp or type(b) is _Temp:
     return list(a) == list(b) and all(x is y for x, y in zip(a, b))
   return a is b
@@ -117,7 +170,7 @@ def same(a, b):
 
 def is_mutable(v):
   return isinstance(v, fdl.Buildable) or type(v) in (
-      list, dict, collections.defaultdict, N.Tmp)
+      list, dict, collections.defaultdict, N.Tmp, N.TmpPrim)
 
 
 def is_obj(v):
@@ -134,12 +187,12 @@ def check(root, res, case, label):
   paths_of = collections.defaultdict(set)
   pinned = {}
   for p, v in indep:
-    if type(v) is not _Temp and is_obj(v):
+    if type(v) not in (_Temp, _TempLeaf) and is_obj(v):
       paths_of[id(v)].add(p)
       pinned[id(v)] = v
   under_temp = set()
   for p, v in indep:
-    if type(v) is _Temp:
+    if type(v) in (_Temp, _TempLeaf):
       under_temp.add(p)
 
   def follow_ok(value, path):
@@ -194,18 +247,17 @@ def check(root, res, case, label):
           f'{len(mut)} distinct mutable objects, visit counts '
           f'{sorted(count.values())}, missing={len(mut - set(count))}')
     if not mi:
-      # every path to a leaf must still be reported (this is what == uses)
-      leafpaths = {p for p, v in indep if not is_obj(v) and type(v) is not
-                   _Temp and not _internable_container(v)}
-      got = {spec(p) for _, p in stream}
-      # paths below a memoized (already visited) object are legitimately
-      # absent; only require those below first visits: skip this completeness
-      # clause unless the structure has no sharing.
-      if len(paths_of) == sum(1 for _ in pinned) and all(
-          len(ps) == 1 for ps in paths_of.values()):
-        if not leafpaths <= got:
-          return bad('iterate-memoized-internables-incomplete',
-                     f'missing leaf paths {sorted(leafpaths - got)[:3]}')
+      # documented meaning of memoize_internables=False: internable values
+      # (constants and tuples of constants) are visited at every path,
+      # everything else once -- this is what Buildable.__eq__ relies on.
+      exp = expected_memoized_paths(root)
+      got = [spec(p) for _, p in stream]
+      if sorted(got, key=repr) != sorted(exp, key=repr):
+        miss = [p for p in exp if p not in set(got)]
+        extra = [p for p in got if p not in set(exp)]
+        return bad('iterate-memoized-no-internables-paths',
+                   f'missing={miss[:3]} extra={extra[:3]} '
+                   f'counts {len(got)} vs {len(exp)}')
   # 3. collect_paths_by_id (both implementations)
   for name, fn in (('daglish', lambda: daglish.collect_paths_by_id(
       root, memoizable_only=True)), ('legacy', lambda: (
@@ -238,8 +290,17 @@ def check(root, res, case, label):
         # temporaries (and leaves hanging off them) have no stable identity:
         # the all-paths query is out of domain there.
         if not in_temp or (is_obj(value) and spec(cur) not in under_temp):
-          records.append((value, cur,
-                          state.get_all_paths(allow_caching=caching)))
+          first = state.get_all_paths(allow_caching=caching)
+          snapshot = list(first)
+          # the answer belongs to the caller: editing it must not change
+          # what later queries return
+          try:
+            first.clear()
+          except AttributeError:
+            pass
+          again = state.get_all_paths(allow_caching=caching)
+          records.append((value, cur, snapshot))
+          records.append((value, cur, list(again)))
         if state.is_traversable(value):
           for _ in state.yield_map_child_values(value):
             pass
